@@ -429,6 +429,7 @@ def run(model, col, tier):
                       f"raising helpers outside the visitor: {helper_raises}. The pass accepts whatever it diagnoses", rel, v.node)
     pipe.makepass_process(col, "R13.5")
     pipe.check_gating(col, "R13.5")
+    pipe.check_pass_freshness(col, "R13.5", ["ValidateArrayAccessType", "ValidateArrayOutOfBoundsAccess", "ValidateSwizzle"])
     pipe.check_runpass_wellformed(col, "R13.5")
     # order: ComputeTypes before the three validators (they read expression types)
     ap = pipe.ast_passes
